@@ -132,6 +132,8 @@ def render(case):
         faults.append({"file": "snooty.toml", "line": 0, "alt_line": len(toml), "classes": ["DocUtilsParseError"],
                        "kind": "config_substitution", "in": "config", "n": k})
         toml.append(f'bad{k} = ":bogusrole{k}:`x`"')
+    # a faultless substitution AFTER the faulty ones: diagnostics must be kept per substitution, not only for the last
+    toml.append('zlast = "also *fine*"')
     for k in cfg.get("bad_banners", []):
         toml += ["", "[[banners]]", 'targets = ["*"]', 'variant = "info"']
         faults.append({"file": "snooty.toml", "line": 0, "alt_line": len(toml), "classes": ["DocUtilsParseError"],
